@@ -21,10 +21,16 @@ pub mod arrayvec {
     }
 
     impl<T, const CAP: usize> ArrayVec<T, CAP> {
+        // "no storage slot beyond len() holds the bytes of a former element": true for a fresh vector, kept by
+        // push, NOT known after pop / clear / truncate (the removed element's bytes stay in the backing array),
+        // re-established only by arrayvec's own Zeroize impl (which wipes the whole backing array).
+        pub uninterp spec fn spare_clean(&self) -> bool;
+
         #[verifier::external_body]
         pub fn new() -> (r: Self)
             ensures
                 r@ == Seq::<T>::empty(),
+                r.spare_clean(),
         {
             ArrayVec { inner: Vec::new() }
         }
@@ -35,6 +41,7 @@ pub mod arrayvec {
                 old(self)@.len() < CAP,
             ensures
                 final(self)@ == old(self)@.push(x),
+                old(self).spare_clean() ==> final(self).spare_clean(),
         {
             self.inner.push(x)
         }
